@@ -17,7 +17,9 @@ this model (a tick recorded at real time `d` ends at `d`).  One-step versions: `
   at all when every wait is a whole number of nanoseconds, e.g. `sp.num = 1`.
 * P3 `run_stamp_law` — every stimulus handled by the run is stamped with the simulation time that
   corresponds to the real time `now` at which it is handled, is never ahead of real time, and
-  the next tick record is started at that very real time `now`, for a simulation time `≤` stamp.
+  the next tick record is started at that very real time `now`, for a simulation time `≤` stamp:
+  it is the tick of the wakeup written for the interrupt, unless an earlier wakeup is served first.
+  The handled stimuli are given by the executable log `Pacing.runLog`.
 -/
 import TickitModel.Lemmas.PacingLemmas
 import TickitModel.Props.C12
@@ -25,7 +27,7 @@ import TickitModel.Props.C04Mono
 
 namespace Tickit
 
-open Pacing
+open Pacing TimeMono
 
 /-! ## P1 — never early (any stimuli) -/
 
@@ -113,7 +115,6 @@ theorem run_linear_law_of_mono (S : Static) (orc : Oracle) (fuel : Nat) (t0 : Si
       simp only [Int.sub_mul] at this
       omega)
     k tr x h0 hk
-  simp only [] at t2
   rw [ht, hr] at t2
   generalize (k : Int) * ((sp.num : Int) - 1) = K at *
   simp only [SimTime] at *
@@ -184,63 +185,73 @@ theorem run_linear_exact (S : Static) (orc : Oracle) (fuel : Nat) (t0 : SimTime)
 /-! ## P3 — stimuli are stamped with the simulation time of their arrival -/
 
 /-- the time at which a stimulus is handled is `max st.real m.now` -/
-theorem StimEv.now_eq_max (ev : StimEv) : ev.now = max ev.st.real ev.m.now := by
+theorem Pacing.StimEv.now_eq_max (ev : StimEv) : ev.now = max ev.st.real ev.m.now := by
   unfold StimEv.now
   rw [Int.max_def]
   split <;> split <;> omega
 
-/-- what handling a stimulus writes: the interrupting top-level component `top` (the component
-itself or the outermost system component containing it) gets the wakeup `ev.stamp sp`, unless an
-earlier wakeup of `top` is still pending, which is kept (`stimWhen`). -/
+/-- what handling a stimulus writes: the interrupting top-level component `ev.top` (the component
+itself or the outermost system component containing it) gets the wakeup `ev.when`, which is
+`ev.stamp sp` unless an earlier wakeup of `top` is still pending, which is kept; real time moves
+to `ev.now`; the ticker time and the real time of the last tick are untouched. -/
 theorem stamp_written (S : Static) (fuel : Nat) (sp : Speed) (ev : StimEv) :
     ((stimStep S fuel sp ev.m ev.st).sim.sched "").wake =
-      addWakeup (ev.m.sim.sched "").wake (raiseInterrupt S fuel ev.st.comp ev.m.sim).2
-        (stimWhen (ev.m.sim.sched "").wake (raiseInterrupt S fuel ev.st.comp ev.m.sim).2 (ev.stamp sp)) ∧
+      addWakeup (ev.m.sim.sched "").wake (ev.top S fuel) (ev.when S fuel sp) ∧
+    ev.when S fuel sp = (match alookup (ev.m.sim.sched "").wake (ev.top S fuel) with
+      | some w => if w < ev.stamp sp then w else ev.stamp sp
+      | none => ev.stamp sp) ∧
+    ev.when S fuel sp ≤ ev.stamp sp ∧
     (stimStep S fuel sp ev.m ev.st).now = ev.now ∧
     (stimStep S fuel sp ev.m ev.st).tickerTime = ev.m.tickerTime ∧
     (stimStep S fuel sp ev.m ev.st).lastReal = ev.m.lastReal :=
-  ⟨stimStep_wake S fuel sp ev.m ev.st, rfl, rfl, rfl⟩
+  ⟨stimStep_wake S fuel sp ev.m ev.st, rfl, stimWhen_le_stamp _ _ _, rfl, rfl, rfl⟩
 
-/-- **P3.**  Whole simulation with stimuli.  The run is a `Pacing.Run` (the branches of
-`masterRun` as a relation) whose `log` lists the stimuli it handled, in order — an initial segment
-of `stims` — each with the master state `ev.m` in which it was handled and the number `ev.k` of
-tick records written before.  For every handled stimulus, with `now = ev.now = max st.real m.now`
-the real time at which it is handled and `stamp = ev.stamp sp = interruptStamp m.tickerTime now
-m.lastReal sp` the time written for it (`stamp_written`):
-* `(m.tickerTime, m.lastReal)` is the last tick record before it, `ticks[k-1]`, and `now` is not
-  before that tick;
-* **stamp law**: `stamp - tickerTime = ⌊(now - lastReal) × speed⌋`;
-* the stamp is never ahead of real time: `(stamp - t0)/speed ≤ now - now0`;
-* a tick for `stamp` is due at once (`dueReal … stamp = now`);
-* the next tick record `ticks[k]`, if there is one, is started at that very real time `now`, for
-  a simulation time `≤ stamp` (`< stamp` only if an earlier wakeup is served first). -/
-theorem run_stamp_law (S : Static) (orc : Oracle) (fuel : Nat) (t0 : SimTime) (now0 : Int)
-    (sp : Speed) (steps nTicks : Nat) (stims : List Stim) (m m2 : MasterSt) (tr : TickRec)
-    (ticks : List TickRec)
+/-- what P3 says about one handled stimulus `ev` (handled in master state `ev.m`, after `ev.k`
+tick records), with `now = ev.now = max st.real m.now` the real time at which it is handled and
+`stamp = ev.stamp sp = interruptStamp m.tickerTime now m.lastReal sp` the time stamped on it
+(`stamp_written`). -/
+structure Pacing.StimEv.Lawful (S : Static) (fuel : Nat) (sp : Speed) (t0 : SimTime) (now0 : Int)
+    (ticks : List TickRec) (ev : StimEv) : Prop where
+  /-- `(m.tickerTime, m.lastReal)` is the last tick record before the stimulus, `ticks[k-1]` -/
+  last_tick : 1 ≤ ev.k ∧ ∃ z, ticks[ev.k - 1]? = some z ∧ z.time = ev.m.tickerTime ∧
+    z.real = ev.m.lastReal
+  /-- real time has not run backwards since that tick, and handling does not move it back -/
+  real_mono : ev.m.lastReal ≤ ev.m.now ∧ ev.m.now ≤ ev.now
+  /-- **stamp law**: `stamp - tickerTime = ⌊(now - lastReal) × speed⌋` -/
+  stamp_law : (ev.stamp sp - ev.m.tickerTime) * sp.den ≤ (ev.now - ev.m.lastReal) * sp.num ∧
+    (ev.now - ev.m.lastReal) * sp.num < (ev.stamp sp - ev.m.tickerTime + 1) * sp.den
+  /-- the stamp is never ahead of real time: `(stamp - t0)/speed ≤ now - now0` -/
+  not_ahead : (ev.stamp sp - t0) * sp.den ≤ (ev.now - now0) * sp.num
+  /-- a tick for `stamp` is due at once -/
+  due_now : dueReal { ev.m with now := ev.now } sp (ev.stamp sp) = ev.now
+  /-- the wakeup written for the interrupting top-level component is not after the stamp -/
+  when_le : ev.when S fuel sp ≤ ev.stamp sp
+  /-- the next tick record `ticks[k]`, if there is one, is started at that very real time `now`,
+  for a simulation time `≤ ev.when`; it is either the tick for `ev.when`, and then it serves the
+  interrupt (`ev.top ∈ roots`), or the tick of an earlier wakeup that is served first. -/
+  served : ∀ x, ticks[ev.k]? = some x → x.real = ev.now ∧ x.time ≤ ev.when S fuel sp ∧
+    (x.time = ev.when S fuel sp → ev.top S fuel ∈ x.roots)
+
+/-- **P3, for any decomposition of the run.**  `Pacing.Run` spells out the branches of `masterRun`
+as a relation; its `log` lists the stimuli handled, in order.  They are an initial segment of
+`stims`, and every one of them is `Lawful`. -/
+theorem run_stamp_law_of_run (S : Static) (orc : Oracle) (fuel : Nat) (t0 : SimTime) (now0 : Int)
+    (sp : Speed) (stims : List Stim) (m m2 : MasterSt) (tr : TickRec)
+    (ticks : List TickRec) (log : List StimEv)
     (h : masterInitial S orc fuel t0 now0 = .ok (m, tr))
-    (h2 : masterRun S orc fuel sp steps nTicks m stims [tr] = .ok (m2, ticks))
+    (hrun : Run S orc fuel sp m stims [tr] m2 ticks log)
     (hn : 0 < sp.num) (hd : 0 < sp.den) :
-    ∃ log : List StimEv, Run S orc fuel sp m stims [tr] m2 ticks log ∧
-      (∃ rest, stims = log.map (·.st) ++ rest) ∧
-      ∀ ev ∈ log,
-        (1 ≤ ev.k ∧ ∃ z, ticks[ev.k - 1]? = some z ∧ z.time = ev.m.tickerTime ∧
-          z.real = ev.m.lastReal) ∧
-        ev.m.lastReal ≤ ev.m.now ∧ ev.m.now ≤ ev.now ∧
-        ((ev.stamp sp - ev.m.tickerTime) * sp.den ≤ (ev.now - ev.m.lastReal) * sp.num ∧
-          (ev.now - ev.m.lastReal) * sp.num < (ev.stamp sp - ev.m.tickerTime + 1) * sp.den) ∧
-        (ev.stamp sp - t0) * sp.den ≤ (ev.now - now0) * sp.num ∧
-        dueReal { ev.m with now := ev.now } sp (ev.stamp sp) = ev.now ∧
-        ∀ x, ticks[ev.k]? = some x → x.real = ev.now ∧ x.time ≤ ev.stamp sp := by
-  obtain ⟨log, hrun, _, h0, ht, hr⟩ := initial_run h h2
-  obtain ⟨_, _, h3, h4, h5⟩ := masterInitial_shape h
-  refine ⟨log, hrun, hrun.log_stims, fun ev hev => ?_⟩
+    (∃ rest, stims = log.map (·.st) ++ rest) ∧
+    ∀ ev ∈ log, ev.Lawful S fuel sp t0 now0 ticks := by
+  obtain ⟨ht, hr, h3, h4, h5⟩ := masterInitial_shape h
+  refine ⟨hrun.log_stims, fun ev hev => ?_⟩
   obtain ⟨e1, e2, e3, e4⟩ := hrun.events hn t0 now0 tr rfl (by rw [ht, h3]) (by rw [hr, h4])
     (by omega) (by rw [h3, h4]; simp) ev hev
   have hserved := hrun.served hd (by omega) ev hev
   have hnow : ev.m.now ≤ ev.now := by unfold StimEv.now; split <;> omega
   have hlast : ev.m.lastReal ≤ ev.now := Int.le_trans e1 hnow
   have hstamp := stamp_law ev.m.tickerTime ev.now ev.m.lastReal sp hd hlast
-  refine ⟨⟨e3, e4⟩, e1, hnow, hstamp, ?_, ?_, hserved⟩
+  refine ⟨⟨e3, e4⟩, ⟨e1, hnow⟩, hstamp, ?_, ?_, stimWhen_le_stamp _ _ _, hserved⟩
   · have h1 := hstamp.1
     show (interruptStamp ev.m.tickerTime ev.now ev.m.lastReal sp - t0) * (sp.den : Int) ≤ _
     generalize interruptStamp ev.m.tickerTime ev.now ev.m.lastReal sp = X at *
@@ -249,5 +260,118 @@ theorem run_stamp_law (S : Static) (orc : Oracle) (fuel : Nat) (t0 : SimTime) (n
     simp only [Int.sub_mul] at *
     omega
   · exact interrupt_due_now { ev.m with now := ev.now } sp hd hn hlast
+
+/-- **P3.**  Whole simulation with stimuli.  `Pacing.runLog … m stims 1` is the list of stimuli
+that `masterRun … m stims [tr]` handles, in order, computed alongside it: each with the master
+state `ev.m` in which it is handled and the number `ev.k` of tick records written before.  The run
+is the `Pacing.Run` with this log; the handled stimuli are an initial segment of `stims`; and every
+handled stimulus is `Lawful`: it is stamped with the simulation time that corresponds to the real
+time `now` at which it is handled (stamp law, relative to the last tick), the stamp is never
+ahead of real time, and the next tick record is started at that very real time `now`, for the
+wakeup written for the interrupt unless an earlier wakeup is served first. -/
+theorem run_stamp_law (S : Static) (orc : Oracle) (fuel : Nat) (t0 : SimTime) (now0 : Int)
+    (sp : Speed) (steps nTicks : Nat) (stims : List Stim) (m m2 : MasterSt) (tr : TickRec)
+    (ticks : List TickRec)
+    (h : masterInitial S orc fuel t0 now0 = .ok (m, tr))
+    (h2 : masterRun S orc fuel sp steps nTicks m stims [tr] = .ok (m2, ticks))
+    (hn : 0 < sp.num) (hd : 0 < sp.den) :
+    Run S orc fuel sp m stims [tr] m2 ticks (runLog S orc fuel sp steps nTicks m stims 1) ∧
+    (∃ rest, stims = (runLog S orc fuel sp steps nTicks m stims 1).map (·.st) ++ rest) ∧
+    ∀ ev ∈ runLog S orc fuel sp steps nTicks m stims 1, ev.Lawful S fuel sp t0 now0 ticks := by
+  have hrun := masterRun_runLog S orc fuel sp steps nTicks m stims [tr] m2 ticks h2
+  exact ⟨hrun, run_stamp_law_of_run S orc fuel t0 now0 sp stims m m2 tr ticks _ h hrun hn hd⟩
+
+/-! ## non-vacuity and tightness (evaluated at build time)
+
+Master level with two devices: `d` asks to be called back periodically, `e` never does. -/
+
+namespace C12RunEx
+
+def S : Static :=
+  { levels := [⟨"", Wiring.fromInverse [("d", []), ("e", [])]⟩], systems := [],
+    parent := [("d", ""), ("e", "")] }
+
+/-- `d`'s i-th update asks for a callback at `period * (i+1)` -/
+def per (period : Int) (k : Nat) : List DevResp :=
+  (List.range k).map (fun (i : Nat) => (⟨[], some (period * ((i : Int) + 1)), false⟩ : DevResp))
+
+def quiet (k : Nat) : List DevResp := List.replicate k ⟨[], none, false⟩
+
+/-- the tick records `(time, real, roots)` of a run from `t0 = 0`, `now0 = 0`, whether
+`RunNoPast` holds in the final state, and the lag `real * num - time * den` of every tick
+(in units of `1/num` ns of real time) -/
+def run (orc : Oracle) (sp : Speed) (stims : List Stim) (k : Nat) :
+    Option (List (Int × Int × List Comp) × Bool × List Int) :=
+  match masterInitial S orc 10 0 0 with
+  | .ok (m, tr) =>
+    match masterRun S orc 10 sp 200 k m stims [tr] with
+    | .ok (m2, ticks) =>
+      some (ticks.map (fun x => (x.time, x.real, x.roots)), runNoPastB orc m2.sim,
+        ticks.map (fun x => x.real * sp.num - x.time * sp.den))
+    | .error _ => none
+  | .error _ => none
+
+/-- the handled stimuli: `(st.real, st.comp, k, now, stamp, top, when)` -/
+def log (orc : Oracle) (sp : Speed) (stims : List Stim) (k : Nat) :
+    Option (List (Int × Comp × Nat × Int × SimTime × Comp × SimTime)) :=
+  match masterInitial S orc 10 0 0 with
+  | .ok (m, _) =>
+    some ((runLog S orc 10 sp 200 k m stims 1).map
+      (fun ev => (ev.st.real, ev.st.comp, ev.k, ev.now, ev.stamp sp, ev.top S 10, ev.when S 10 sp)))
+  | .error _ => none
+
+-- speed 3/2, period 2: each wait is 4/3 ns, slept as 2 ns; the k-th tick lags by exactly
+-- `k * (num - 1) = 2k` thirds of a nanosecond: the bound of `run_linear_law` is attained
+#guard run [("d", per 2 30), ("e", quiet 30)] ⟨3, 2⟩ [] 5 ==
+  some ([(0, 0, ["d", "e"]), (2, 2, ["d"]), (4, 4, ["d"]), (6, 6, ["d"]), (8, 8, ["d"]), (10, 10, ["d"])],
+    true, [0, 2, 4, 6, 8, 10])
+-- speed 2/3, period 1: each wait is 3/2 ns, slept as 2 ns; the bound `k * (num - 1) = k` is attained
+#guard run [("d", per 1 30), ("e", quiet 30)] ⟨2, 3⟩ [] 5 ==
+  some ([(0, 0, ["d", "e"]), (1, 2, ["d"]), (2, 4, ["d"]), (3, 6, ["d"]), (4, 8, ["d"]), (5, 10, ["d"])],
+    true, [0, 1, 2, 3, 4, 5])
+-- speed 3/2, period 3: every wait is a whole number of nanoseconds (2): no lag
+-- (`run_linear_exact_of_dvd`)
+#guard run [("d", per 3 30), ("e", quiet 30)] ⟨3, 2⟩ [] 5 ==
+  some ([(0, 0, ["d", "e"]), (3, 2, ["d"]), (6, 4, ["d"]), (9, 6, ["d"]), (12, 8, ["d"]), (15, 10, ["d"])],
+    true, [0, 0, 0, 0, 0, 0])
+-- speed 1/3 (`num = 1`), period 7: exact (`run_linear_exact`)
+#guard run [("d", per 7 30), ("e", quiet 30)] ⟨1, 3⟩ [] 5 ==
+  some ([(0, 0, ["d", "e"]), (7, 21, ["d"]), (14, 42, ["d"]), (21, 63, ["d"]), (28, 84, ["d"]), (35, 105, ["d"])],
+    true, [0, 0, 0, 0, 0, 0])
+-- the hypothesis "no callback in the past" of P2 is needed, even at speed 1: at time 6 `d` asks
+-- for time 5; real time does not go back, so the tick for 5 is 1 ns late (P1 still holds)
+#guard run [("d", [⟨[], some 6, false⟩, ⟨[], some 5, false⟩, ⟨[], none, false⟩]), ("e", quiet 30)] ⟨1, 1⟩ [] 5 ==
+  some ([(0, 0, ["d", "e"]), (6, 6, ["d"]), (5, 6, ["d"])], false, [0, 0, 1])
+-- P3, speed 3/2, `d` waits for 10.  At real time 3 `e` and `d` are interrupted: stamp
+-- `0 + ⌊3 * 3/2⌋ = 4` (for `d`: `min 10 4`), served at once, at real time 3.  At real time 5 `e`
+-- again: stamp `4 + ⌊2 * 3/2⌋ = 7`, served at real time 5.  (`d` then asks for 20, 30, …)
+#guard run [("d", per 10 30), ("e", quiet 30)] ⟨3, 2⟩ [⟨3, "e"⟩, ⟨3, "d"⟩, ⟨5, "e"⟩] 5 ==
+  some ([(0, 0, ["d", "e"]), (4, 3, ["d", "e"]), (7, 5, ["e"]), (20, 14, ["d"]), (30, 21, ["d"]), (40, 28, ["d"])],
+    true, [0, 1, 1, 2, 3, 4])
+#guard log [("d", per 10 30), ("e", quiet 30)] ⟨3, 2⟩ [⟨3, "e"⟩, ⟨3, "d"⟩, ⟨5, "e"⟩] 5 ==
+  some [(3, "e", 1, 3, 4, "e", 4), (3, "d", 1, 3, 4, "d", 4), (5, "e", 2, 5, 7, "e", 7)]
+-- P3, "unless an earlier wakeup is served first": speed 3/2, `d` has period 2 (its tick for 2 is
+-- due at real time ⌈4/3⌉ = 2).  `e` is interrupted at real time 2: stamp `⌊2 * 3/2⌋ = 3 > 2`.
+-- The next tick record is started at real time 2 as `run_stamp_law` says, but it is `d`'s (time
+-- 2 < 3); `e`'s own tick (time 3) is paced from that one and starts at real time 2 + ⌈2/3⌉ = 3.
+#guard run [("d", per 2 30), ("e", quiet 30)] ⟨3, 2⟩ [⟨2, "e"⟩] 4 ==
+  some ([(0, 0, ["d", "e"]), (2, 2, ["d"]), (3, 3, ["e"]), (4, 4, ["d"]), (6, 6, ["d"])],
+    true, [0, 2, 3, 4, 6])
+#guard log [("d", per 2 30), ("e", quiet 30)] ⟨3, 2⟩ [⟨2, "e"⟩] 4 == some [(2, "e", 1, 2, 3, "e", 3)]
+
+end C12RunEx
+
+/-
+Not covered here:
+* an upper bound on the lag (the converse of P1's cumulative bound) for runs WITH stimuli: each
+  interrupt tick rounds the stamp DOWN to a whole simulated nanosecond (`truncDiv`), and an
+  interrupt whose stamp lies after a wakeup that is due at the same real instant is served only
+  after that wakeup's tick and paced from it (last example above: arrival at real time 2, own
+  tick at real time 3), so the callbacks-only bound `k * (sp.num - 1)` does not carry over as it
+  stands;
+* `run_stamp_law` says at which real time the NEXT tick record after a stimulus is started and
+  when that tick is the interrupt's own; when an earlier wakeup goes first, the real time of the
+  interrupt's own later tick is only bounded below (P1).
+-/
 
 end Tickit
